@@ -619,7 +619,12 @@ func (c *Ctx2) session(s *Session) {
 			sig = "regressed:" + strings.TrimPrefix(s.Tag, "regress:")
 		}
 		c.Count("diff=" + sig)
-		c.Fail(sig, s.text(), detail)
+		// the two known findings are recorded 40 times each (every further one is only counted), so that the
+		// failure list of common.Ctx (capped) always has room for anything else
+		c.seen[sig]++
+		if (sig != "log-not-replayed" && sig != "stale-hit:redefined-callee") || c.seen[sig] <= 40 {
+			c.Fail(sig, s.text(), detail)
+		}
 		break
 	}
 	// what a REPL user sees (printed text incl. the echoed result), cache on vs off
@@ -635,7 +640,10 @@ func (c *Ctx2) session(s *Session) {
 	}
 }
 
-type Ctx2 struct{ *Ctx }
+type Ctx2 struct {
+	*Ctx
+	seen map[string]int
+}
 
 // ---------------------------------------------------------------- corpus
 func corpus() []*Session {
@@ -702,8 +710,10 @@ func corpus() []*Session {
 	})
 	mk("mech:maxargs-unhashable", func(s *Session) {
 		big := va(vi(1), vi(2), vi(3), vi(4), vi(5), vi(6), vi(7), vi(8), vi(9))
-		s.Inputs = []*Expr{asg("f", s.fn("", []string{"p", "q", "r", "s", "t"}, seq(prt(lit(vs("5"))), v("p")))), cn("f", li(1), li(2), li(3), li(4), li(5)),
-			cn("f", li(1), li(2), li(3), li(4), li(5)),
+		s.Inputs = []*Expr{asg("f", s.fn("", []string{"p", "q", "r", "s", "t"}, seq(prt(lit(vs("5"))), v("t")))), cn("f", li(1), li(2), li(3), li(4), li(5)),
+			cn("f", li(1), li(2), li(3), li(4), li(5)), cn("f", li(1), li(2), li(3), li(4), li(6)), cn("f", li(2), li(2), li(3), li(4), li(6)),
+			asg("k4", s.fn("", []string{"p", "q", "r", "s"}, seq(prt(lit(vs("4"))), v("s")))), cn("k4", li(1), li(2), li(3), li(4)), cn("k4", li(1), li(2), li(3), li(4)),
+			cn("k4", li(1), li(2), li(3), li(5)),
 			asg("id", s.fn("", []string{"p"}, seq(prt(v("p")), v("p")))), cn("id", lit(big)), cn("id", lit(big)), cn("id", lit(va(vi(1), vi(2)))), cn("id", lit(va(vi(1), vi(2)))),
 			cn("id", lit(vs("ab"))), cn("id", lit(vs("ab"))), cn("id", lit(Val{K: 'n'})), cn("id", lit(Val{K: 'b', B: true})), cn("id", li(1)), cn("id", lit(Val{K: 'w', Z: 1})),
 			cn("id", lit(Val{K: 'h', Z: 1})), cn("id", lit(va(Val{K: 'm'}))), cn("id", lit(va(Val{K: 'z'})))}
@@ -989,8 +999,61 @@ func (c *Ctx2) randomSession(closed bool) *Session {
 	return s
 }
 
+// a caller remembered, its callee rebound, the caller called again (the known finding, in many shapes)
+func (c *Ctx2) redefSession() *Session {
+	s := &Session{Tag: "random-redefine"}
+	g := &gen{r: c.R, s: s, intFuns: map[string]int{}, mkKind: -1}
+	r := c.R
+	def := func(name string, params []string, body *Expr) *Expr {
+		if r.Bool() {
+			return s.fn(name, params, body)
+		}
+		return asg(name, s.fn("", params, body))
+	}
+	pure := func(params []string) *Expr { g.rank = 99; return g.intBody("", params, true) }
+	params := [][]string{{"n"}, {}}[r.Intn(2)]
+	args := func() []*Expr {
+		if len(params) == 0 {
+			return nil
+		}
+		return []*Expr{li(int64(r.Intn(2)))}
+	}
+	pv := func() []*Expr {
+		if len(params) == 0 {
+			return nil
+		}
+		return []*Expr{v("n")}
+	}
+	s.Inputs = append(s.Inputs, def("g", params, pure(params)))
+	caller := add(cn("g", pv()...), li(int64(r.Intn(3))))
+	if r.Bool() {
+		caller = seq(prt(lit(vs("f"))), caller)
+	}
+	s.Inputs = append(s.Inputs, def("f", params, caller))
+	top := "f"
+	if r.Pct(40) {
+		s.Inputs = append(s.Inputs, def("h", params, add(cn("f", pv()...), li(1))))
+		top = "h"
+	}
+	a := args()
+	s.Inputs = append(s.Inputs, cn(top, a...))
+	if r.Bool() {
+		s.Inputs = append(s.Inputs, cn(top, args()...))
+	}
+	switch r.Intn(4) {
+	case 0:
+		s.Inputs = append(s.Inputs, asg("g", li(int64(r.Intn(3)))))
+	case 1:
+		s.Inputs = append(s.Inputs, del("g"), def("g", params, pure(params)))
+	default:
+		s.Inputs = append(s.Inputs, def("g", params, pure(params)))
+	}
+	s.Inputs = append(s.Inputs, cn(top, a...), cn("g", a...), cn("f", a...))
+	return s
+}
+
 func runC04(c0 *Ctx) {
-	c := &Ctx2{c0}
+	c := &Ctx2{Ctx: c0, seen: map[string]int{}}
 	log.SetOutput(io.Discard)
 	log.SetLogLevelQuiet(log.Warning) // log() is a no-op at Error and above; nothing of fortio's own logging is kept
 	if err := extensions.Init(nil); err != nil {
@@ -1002,7 +1065,7 @@ func runC04(c0 *Ctx) {
 		"print, log, error, rand/time.now, del, recursion); each run cache on and cache off on the implementation (direct oracle) and on the extracted model. " +
 		"non-trivial = distinct session that ends with a non-empty cache"
 	// every identifier the generator uses must be free in a fresh state (not an extension, not a predefined function)
-	for _, name := range []string{"f", "g", "h", "id", "mk", "a", "b", "c", "d", "w", "k", "x", "y", "t", "n", "m", "p", "q", "r", "s", "X", "N", "F", "fib", "f2"} {
+	for _, name := range []string{"f", "g", "h", "id", "mk", "a", "b", "c", "d", "w", "k", "x", "y", "t", "n", "m", "p", "q", "r", "s", "X", "N", "F", "fib", "f2", "k4"} {
 		st := eval.NewState()
 		st.Out, st.LogOut = io.Discard, io.Discard
 		res, _ := evalProtected(st, parser.New(lexer.New(name)).ParseProgram())
@@ -1018,12 +1081,19 @@ func runC04(c0 *Ctx) {
 	for _, s := range corpus() {
 		c.session(s)
 	}
-	n := 300
+	n := 1500
 	if c.Thorough() {
 		n = 20000
 	}
 	for i := 0; i < n; i++ {
-		c.session(c.randomSession(i%3 == 0))
+		switch i % 10 {
+		case 0, 1, 2:
+			c.session(c.randomSession(true))
+		case 3:
+			c.session(c.redefSession())
+		default:
+			c.session(c.randomSession(false))
+		}
 	}
 }
 
